@@ -15,6 +15,9 @@ func (p LLC) IsValid() error {
 	if len(p) < 3 {
 		return ErrFrameLen
 	}
+	if p.Type() != "u" && len(p) < 4 { // i, s (and snap) formats carry a second control/header byte
+		return ErrFrameLen
+	}
 	return nil
 }
 
